@@ -1,16 +1,12 @@
-// vworker is the only program that links coredhcp. It is rebuilt from /repo's
-// working tree (module replace) by every check, with -tags verif and optionally
-// -race, and runs one batch of cases of one engine. It never recovers from a
-// panic in the code under test: a dead worker is an observation.
+// vworker is the program that links coredhcp. It is rebuilt from /repo's working tree (module
+// replace) by every check, with -tags verif and optionally -race/-asan, and runs one batch of cases
+// of one engine. It never recovers from a panic in the code under test: a dead worker is an
+// observation.
 package main
 
 import (
-	"encoding/json"
-	"flag"
-	"fmt"
 	"io"
 	"os"
-	"time"
 
 	"github.com/coredhcp/coredhcp/logger"
 	"github.com/sirupsen/logrus"
@@ -24,92 +20,13 @@ func main() {
 		eng.ChildMain()
 		return
 	}
-	var (
-		engine   = flag.String("engine", "", "engine name")
-		tier     = flag.String("tier", "quick", "quick|thorough")
-		focus    = flag.String("focus", "", "property id the check runs for")
-		seed     = flag.Int64("seed", 1, "seed")
-		batch    = flag.Int("batch", 0, "batch number")
-		start    = flag.Int("start", 0, "first case index")
-		n        = flag.Int("n", 1, "number of cases in the batch (indices start..n-1)")
-		journal  = flag.String("journal", "", "journal file")
-		out      = flag.String("out", "", "result file")
-		scratch  = flag.String("scratch", "", "scratch dir")
-		replay   = flag.String("replay", "", "replay file (runs exactly that case)")
-		loglevel = flag.String("loglevel", "info", "coredhcp log level (output is always discarded unless VERIF_LOG=1)")
-	)
-	flag.Parse()
-	e, ok := eng.Registry[*engine]
-	if !ok {
-		fmt.Fprintf(os.Stderr, "vworker: unknown engine %q\n", *engine)
-		os.Exit(3)
-	}
-	lg := logger.GetLogger("verif").Logger
-	if os.Getenv("VERIF_LOG") == "" {
-		lg.SetOutput(io.Discard)
-	}
-	if lv, err := logrus.ParseLevel(*loglevel); err == nil {
-		lg.SetLevel(lv)
-	}
-	if *scratch == "" {
-		d, err := os.MkdirTemp("", "vworker")
-		if err != nil {
-			panic(err)
+	fw.RunWorker(eng.Registry, func(level string) {
+		lg := logger.GetLogger("verif").Logger
+		if os.Getenv("VERIF_LOG") == "" {
+			lg.SetOutput(io.Discard)
 		}
-		*scratch = d
-		defer os.RemoveAll(d)
-	}
-	ctx, err := fw.NewCtx(*engine, *tier, *focus, *seed, *batch, *journal, *scratch)
-	if err != nil {
-		fmt.Fprintf(os.Stderr, "vworker: %v\n", err)
-		os.Exit(3)
-	}
-	write := func(res *fw.Result) {
-		if *out == "" {
-			return
+		if lv, err := logrus.ParseLevel(level); err == nil {
+			lg.SetLevel(lv)
 		}
-		b, err := json.Marshal(res)
-		if err != nil {
-			fmt.Fprintf(os.Stderr, "vworker: marshal result: %v\n", err)
-			os.Exit(3)
-		}
-		tmp := *out + ".tmp"
-		if err := os.WriteFile(tmp, b, 0o644); err == nil {
-			os.Rename(tmp, *out)
-		}
-	}
-	if *replay != "" {
-		raw, err := os.ReadFile(*replay)
-		if err != nil {
-			fmt.Fprintf(os.Stderr, "vworker: %v\n", err)
-			os.Exit(3)
-		}
-		var rp fw.Replay
-		if err := json.Unmarshal(raw, &rp); err != nil {
-			fmt.Fprintf(os.Stderr, "vworker: %v\n", err)
-			os.Exit(3)
-		}
-		cs, err := e.Decode(rp.Case)
-		if err != nil {
-			fmt.Fprintf(os.Stderr, "vworker: decode case: %v\n", err)
-			os.Exit(3)
-		}
-		ctx.Seed, ctx.Batch = rp.Seed, rp.Batch
-		ctx.BeginCase(rp.Index, cs)
-		e.Run(ctx, cs)
-		write(ctx.Finish())
-		return
-	}
-	last := time.Now()
-	for i := *start; i < *n; i++ {
-		rng := fw.CaseRng(*seed, *batch, i)
-		cs := e.Gen(rng, *tier, *batch**n+i) // global case index
-		ctx.BeginCase(i, cs)
-		e.Run(ctx, cs)
-		if time.Since(last) > 2*time.Second {
-			write(ctx.Snapshot())
-			last = time.Now()
-		}
-	}
-	write(ctx.Finish())
+	})
 }
